@@ -6,9 +6,19 @@ no_grad(), .item()/torch.tensor rebuilds) must equal the true derivative of the
 reported value (same DAG, stops ignored), and every parameter the value depends on
 must have a gradient that is not identically zero.  The autograd model is validated
 against real torch.autograd at the witness on every run.
+
+Eigendecompositions (HKY / GTR / general symmetric models: torch.linalg.eigh + inverse;
+general non-symmetric model: torch.matrix_exp) are differentiable in this check: on C12's
+traces the stubs return uninterpreted functions of the entries of their symbolic input
+(symtorch/ext_c12.py), DAG.grad differentiates them by derivative symbols, and a cut of
+the autograd history anywhere on the path parameters -> q -> symmetrisation -> eigh -> p_t
+-> pruning makes the two gradients different expressions in those (free) symbols.  For such
+cases the witness cross-check is "real torch.autograd == central finite differences on the
+real model at the witness" (derivative symbols carry pseudo-witness values).
 """
 from __future__ import annotations
 
+import re
 import sys
 import time
 
@@ -16,6 +26,7 @@ import torch
 
 import C10
 import common as cm
+import symtorch.ext_c12  # noqa: F401  (registers the opt-in differentiable eigh / inverse stubs; only traces with uf_stubs=True use them)
 from symtorch import SymTensor, cur, from_ids, new_vars
 from symtorch.axioms import ground_axioms
 from symtorch.explore import Explorer, Goal, triage
@@ -23,18 +34,56 @@ from vlib.core import main_for, pmap
 
 PID = 'C12'
 SEQS = C10.SEQS
+PIN_TIMEOUT = 8  # s, z3 only: queries with every input pinned at the witness
 
 
 def P(vals, lo=None, hi=None):
     return (vals, lo, hi)
 
 
-def case_chain(kind):
-    """densities reached through the ratio / root-height parameterisation (chain of transforms)"""
+def register():
+    """classes the cases below name in their JSON (C10.register covers the rest)"""
+    import torchtree.distributions.gmrf_integrated  # noqa
+    import torchtree.evolution.bdsk  # noqa
+    import torchtree.evolution.birth_death  # noqa
+    import torchtree.evolution.substitution_model.general  # noqa
+    import torchtree.evolution.substitution_model.nucleotide  # noqa
+
+
+def build(specs):
+    register()
+    return C10.build(specs)
+
+
+# ------------------------------------------------------------------ cases
+# a case is (spec list, params {id: (values, lo, hi)}, target id, opts); opts:
+#   rescale       the likelihood keeps rescale=True (rescaled kernels)
+#   evaluate      'q' | 'p_t' : the evaluated quantity is subst.q() / subst.p_t(t) instead of target()
+#   weighted      the scalar that is differentiated is sum_k w_k value_k with fixed generic weights w_k = 1 + k/8
+#                 (rows of q sum to 0 and rows of p_t to 1: the plain sum would be constant)
+#   heights_order tree.heights[0] < tree.heights[1]
+#   domain        callable(d, V) -> extra constraints
+#   event_time_equalities   an `eq` among the path conditions of a region is a tie between event times (BDSK: tip time == epoch boundary)
+#   start / witness_signature / witness_note   exploration started at a chosen point (degenerate cases)
+#   fixed         names 'p[i]' of parameter elements held at their initial value (no gradient obligation for them)
+#   max_regions / no_closure   explorer budget for cases with many path regions
+def ratio_tree():
     taxa = cm.taxa_json(3)
     tree = cm.ratio_tree_json(((0, 1), 2), 3)
     tree['taxa'] = taxa
-    params = {'tree.ratios': P([0.4], 0.01, 0.99), 'tree.root_height': P([3.0], 0.05, None)}
+    return tree, {'tree.ratios': P([0.4], 0.01, 0.99), 'tree.root_height': P([3.0], 0.05, None)}
+
+
+def shift_tree():
+    taxa = cm.taxa_json(3)
+    tree = cm.shift_tree_json(((0, 1), 2), 3)
+    tree['taxa'] = taxa
+    return tree, {'tree.shifts': P([1.0, 1.5], 0.01, None)}
+
+
+def case_chain(kind):
+    """densities reached through the ratio / root-height parameterisation (chain of transforms)"""
+    tree, params = ratio_tree()
     if kind == 'jacobian':
         return [tree], params, 'tree', {}
     if kind == 'coalescent':
@@ -76,30 +125,298 @@ def case_chain(kind):
     raise KeyError(kind)
 
 
-def case_gmrf_time(rescale):
+def case_chain_eigen(subst, site, tip_states=False, rescale=False, mu=False):
+    """TreeLikelihoodModel with a numerically diagonalised substitution model through a strict clock on a
+    ratio-parameterised time tree: kappa / rates / frequencies -> q -> eigh -> p_t -> pruning, and
+    ratios / root height -> node heights -> branch lengths x clock rate x site rates -> p_t"""
+    specs, params, target, opts = C10.case_likelihood('strict', site, subst, categories=2, tip_states=tip_states, mu=mu, rescale=rescale)
+    tree, tparams = ratio_tree()
+    specs[0]['tree_model'] = tree
+    del params['tree.heights']
+    params = dict(tparams, **params)
+    params['rate'] = P([0.05], 0.001, None)
+    specs[0]['branch_model']['rate']['tensor'] = [0.05]
+    return specs, params, target, {'rescale': rescale}
+
+
+def case_site_invariant_mu():
+    """Weibull (2 categories) + invariant class + mu: K = 3, rates = [0, r1, r2] * mu / mean"""
+    specs, params, target, opts = C10.case_likelihood('unrooted', 'weibull', 'JC69', categories=2, mu=True)
+    specs[0]['site_model']['invariant'] = {'id': 'pinv', 'type': 'Parameter', 'tensor': [0.2]}
+    params['pinv'] = P([0.2], 0.01, 0.9)
+    return specs, params, target, {}
+
+
+GENERAL_DT = {'id': 'dt', 'type': 'GeneralDataType', 'codes': ['a', 'b', 'c']}
+
+
+def subst_json(kind):
+    """(spec, params) of a substitution model alone"""
+    if kind in ('HKY', 'GTR'):
+        specs, params, target, opts = C10.case_subst(kind)
+        if kind == 'HKY':
+            params['kappa'] = P([3.0], 0.1, None)
+        return specs[0], params
+    if kind == 'GeneralSymmetric':  # 3 states, one rate per pair
+        return ({'id': 'subst', 'type': 'GeneralSymmetricSubstitutionModel', 'data_type': GENERAL_DT, 'mapping': [0, 1, 2],
+                 'rates': {'id': 'rates', 'type': 'Parameter', 'tensor': [0.8, 1.3, 2.1]},
+                 'frequencies': {'id': 'freqs', 'type': 'Parameter', 'tensor': [0.2, 0.3, 0.5]}},
+                {'rates': P([0.8, 1.3, 2.1], 0.01, None), 'freqs': P([0.2, 0.3, 0.5], 0.01, None)})
+    if kind == 'GeneralNonSymmetric':  # 3 states, 6 rates, torch.matrix_exp
+        return ({'id': 'subst', 'type': 'GeneralNonSymmetricSubstitutionModel', 'data_type': GENERAL_DT, 'mapping': [0, 1, 2, 3, 4, 5],
+                 'rates': {'id': 'rates', 'type': 'Parameter', 'tensor': [0.8, 1.3, 2.1, 0.6, 1.7, 1.1]},
+                 'frequencies': {'id': 'freqs', 'type': 'Parameter', 'tensor': [0.2, 0.3, 0.5]}},
+                {'rates': P([0.8, 1.3, 2.1, 0.6, 1.7, 1.1], 0.01, None), 'freqs': P([0.2, 0.3, 0.5], 0.01, None)})
+    raise KeyError(kind)
+
+
+def case_subst(kind, what):
+    """q() or p_t(t) of a substitution model as the differentiated quantity (weighted sum of the entries)"""
+    sm, params = subst_json(kind)
+    specs = [sm]
+    if what == 'p_t':
+        specs.append({'id': 't', 'type': 'Parameter', 'tensor': [0.3]})
+        params['t'] = P([0.3], 0.001, None)
+    return specs, params, 'subst', {'evaluate': what, 'weighted': True}
+
+
+SIG_DEGENERATE = 'eigen:nan-gradient-at-repeated-eigenvalue'
+
+
+def case_degenerate(kind):
+    """interior points of the domain at which the rate matrix has a repeated eigenvalue: HKY at kappa = 1 (F81: eigenvalue -beta three
+    times), GTR with six equal exchangeabilities (the same matrix).  The density is smooth there; the case starts the exploration AT
+    that point, so the witness cross-check (torch.autograd vs finite differences on the real model) is made there"""
+    if kind == 'HKY':
+        specs, params, target, opts = C10.case_likelihood('unrooted', 'constant', 'HKY')
+        start = {'kappa[0]': 1.0}
+    else:
+        specs, params, target, opts = C10.case_likelihood('unrooted', 'constant', 'GTR')
+        start = {f'rates[{i}]': 1.0 for i in range(6)}
+    note = (' [an interior point of the domain at which the normalised rate matrix has the eigenvalue -beta three times: torch.linalg.eigh '
+            'has no finite derivative there (1 / (e_i - e_j) in its backward), SymmetricSubstitutionModel.p_t differentiates through it, '
+            'and the log-likelihood - smooth at this point - receives NaN gradients for every substitution-model parameter]')
+    return specs, params, target, {'start': start, 'witness_signature': SIG_DEGENERATE, 'witness_note': note}
+
+
+def case_like_general(kind):
+    """likelihood over a 3-state alphabet with the general (a)symmetric model on an unrooted tree"""
+    sm, params = subst_json(kind)
+    sm = dict(sm, data_type='dt')
+    taxa = cm.taxa_json(3)
+    tree = cm.unrooted_tree_json(((0, 1), 2), 3)
+    tree['taxa'] = taxa
+    params['tree.blens'] = P([0.1, 0.2, 0.15], 0.001, None)
+    aln = cm.alignment_json({'t0': 'abca', 't1': 'bcab', 't2': 'cabb'}, datatype='dt', taxa='taxa')
+    like = {'id': 'm', 'type': 'TreeLikelihoodModel', 'tree_model': tree, 'site_model': {'id': 'site', 'type': 'ConstantSiteModel'},
+            'substitution_model': sm, 'site_pattern': {'id': 'sp', 'type': 'SitePattern', 'alignment': aln}}
+    return [dict(GENERAL_DT), like], params, 'm', {}
+
+
+def case_gmrf_time(rescale, integrated=False):
     taxa = cm.taxa_json(3)
     tree = cm.time_tree_json(((0, 1), 2), 3)
     tree['taxa'] = taxa
+    params = {'field': P([0.1, 0.5]), 'tree.heights': P([1.0, 2.5], 0.01, None)}
+    if integrated:
+        m = {'id': 'm', 'type': 'GMRFGammaIntegrated', 'x': {'id': 'field', 'type': 'Parameter', 'tensor': [0.1, 0.5]},
+             'shape': 1.5, 'rate': 0.5, 'tree_model': tree, 'rescale': rescale}
+    else:
+        m = {'id': 'm', 'type': 'GMRF', 'x': {'id': 'field', 'type': 'Parameter', 'tensor': [0.1, 0.5]},
+             'precision': {'id': 'tau', 'type': 'Parameter', 'tensor': [1.5]}, 'tree_model': tree, 'rescale': rescale}
+        params['tau'] = P([1.5], 0.01, None)
+    return [m], params, 'm', {'heights_order': True}
+
+
+def case_gmrf_integrated():
+    m = {'id': 'm', 'type': 'GMRFGammaIntegrated', 'x': {'id': 'field', 'type': 'Parameter', 'tensor': [0.1, 0.5, 0.2]},
+         'shape': 1.5, 'rate': 0.5}
+    return [m], {'field': P([0.1, 0.5, 0.2])}, 'm', {}
+
+
+def case_gmrf_weights(integrated=False):
+    """weighted squared differences; the weights are a Parameter (a differentiation leaf like any other)"""
+    specs, params, target, opts = case_gmrf_integrated() if integrated else C10.case_gmrf()
+    specs[0]['weights'] = {'id': 'w', 'type': 'Parameter', 'tensor': [0.7, 1.4]}
+    params['w'] = P([0.7, 1.4], 0.01, None)
+    return specs, params, target, opts
+
+
+def case_gmrf_covariate():
+    m = {'id': 'm', 'type': 'GMRFCovariate', 'field': {'id': 'field', 'type': 'Parameter', 'tensor': [0.1, 0.5, 0.2]},
+         'precision': {'id': 'tau', 'type': 'Parameter', 'tensor': [1.5]},
+         'covariates': [[1.0, 0.3], [0.5, -0.2], [0.25, 0.9]],
+         'beta': {'id': 'beta', 'type': 'Parameter', 'tensor': [0.7, -0.4]}}
+    return [m], {'field': P([0.1, 0.5, 0.2]), 'tau': P([1.5], 0.01, None), 'beta': P([0.7, -0.4])}, 'm', {}
+
+
+def case_gmrf_chain():
+    """time-aware GMRF on a ratio-parameterised tree: ratios / root height -> heights -> argsort -> durations"""
+    tree, params = ratio_tree()
     m = {'id': 'm', 'type': 'GMRF', 'x': {'id': 'field', 'type': 'Parameter', 'tensor': [0.1, 0.5]},
-         'precision': {'id': 'tau', 'type': 'Parameter', 'tensor': [1.5]}, 'tree_model': tree, 'rescale': rescale}
-    return [m], {'field': P([0.1, 0.5]), 'tau': P([1.5], 0.01, None), 'tree.heights': P([1.0, 2.5], 0.01, None)}, 'm', \
-        {'heights_order': True}
+         'precision': {'id': 'tau', 'type': 'Parameter', 'tensor': [1.5]}, 'tree_model': tree, 'rescale': True}
+    params.update({'field': P([0.1, 0.5]), 'tau': P([1.5], 0.01, None)})
+    return [m], params, 'm', {}
 
 
-def case_piecewise_linear():
-    taxa = cm.taxa_json(3)
+def case_coalescent_integrated(chain=False):
+    if chain:
+        tree, params = ratio_tree()
+        opts = {}
+    else:
+        taxa = cm.taxa_json(3)
+        tree = cm.time_tree_json(((0, 1), 2), 3)
+        tree['taxa'] = taxa
+        params = {'tree.heights': P([1.0, 2.5], 0.01, None)}
+        opts = {'heights_order': True}
+    m = {'id': 'm', 'type': 'ConstantCoalescentIntegratedModel', 'alpha': 2.5, 'beta': 1.5, 'tree_model': tree}
+    return [m], params, 'm', opts
+
+
+def case_coalescent_chain(kind, parameterisation):
+    """coalescent densities w.r.t. the node heights THROUGH the ratio (GeneralNodeHeightTransform) or the shift
+    (DifferenceNodeHeightTransform) parameterisation; the grid point 1.7 of the grid models is compared with heights
+    that are products / sums of the parameters"""
+    specs, params, target, opts = C10.case_plinear() if kind == 'piecewise-linear' else C10.case_coalescent(kind)
+    tree, tparams = ratio_tree() if parameterisation == 'ratio' else shift_tree()
+    specs[0]['tree_model'] = tree
+    del params['tree.heights']
+    params = dict(tparams, **params)
+    return specs, params, target, {}
+
+
+DATES4 = [0.0, 0.3, 0.6, 0.1]  # tip heights of t0..t3 ("time starts at 0": the date is the height)
+SEQS4 = {'t0': 'ACRA', 't1': 'CG-C', 't2': 'GTNG', 't3': 'ATTA'}
+
+
+def tree4(parameterisation, topology=((0, 1), (2, 3))):
+    """4 heterochronous taxa: two ratios (one per cherry; the preorder loop of GeneralNodeHeightTransform writes both into the
+    clone) with lower bounds max(date of the descendants), or three shifts with max() over children of different heights"""
+    taxa = cm.taxa_json(4, DATES4)
+    if parameterisation == 'ratio':
+        tree = cm.ratio_tree_json(topology, 4)
+        params = {'tree.ratios': P([0.4, 0.7], 0.01, 0.99), 'tree.root_height': P([3.0], 0.7, None)}
+    else:
+        tree = cm.shift_tree_json(topology, 4)
+        params = {'tree.shifts': P([1.0, 0.5, 1.5], 0.01, None)}
+    tree['taxa'] = taxa
+    return tree, params
+
+
+CATERPILLAR4 = (((0, 1), 2), 3)
+
+
+def case_chain4(kind, parameterisation, topology=((0, 1), (2, 3))):
+    tree, params = tree4(parameterisation, topology)
+    if kind == 'jacobian':
+        return [tree], params, 'tree', {}
+    if kind == 'likelihood':
+        specs, lparams, target, opts = C10.case_likelihood('strict', 'weibull', 'HKY', categories=2)
+        specs[0]['tree_model'] = tree
+        specs[0]['site_pattern']['alignment'] = cm.alignment_json(SEQS4, taxa='taxa')
+        del lparams['tree.heights']
+        lparams['rate'] = P([0.05], 0.001, None)
+        specs[0]['branch_model']['rate']['tensor'] = [0.05]
+        return specs, dict(params, **lparams), target, {}
+    specs, cparams, target, opts = C10.case_coalescent(kind)
+    specs[0]['tree_model'] = tree
+    del cparams['tree.heights']
+    if kind == 'skyride':
+        specs[0]['theta']['tensor'] = [2.0, 3.0, 2.5]
+        cparams['theta'] = P([2.0, 3.0, 2.5], 0.01, None)
+    return specs, dict(params, **cparams), target, {'max_regions': 80}
+
+
+def case_likelihood_shift():
+    """JC69 + Weibull likelihood through a strict clock on a shift-parameterised tree (DifferenceNodeHeightTransform)"""
+    specs, params, target, opts = case_chain('likelihood')
+    tree, tparams = shift_tree()
+    specs[0]['tree_model'] = tree
+    for k in ('tree.ratios', 'tree.root_height'):
+        del params[k]
+    return specs, dict(tparams, **params), target, opts
+
+
+BDSK_DATES = [0.5, 0.0, 0.2]  # tip heights of t0, t1, t2 ("time starts at 0": the date is the height)
+
+
+def case_bdsk(m=1, survival=True, serial=True, rho=True, times=None, removal=False):
+    """BDSKModel -> PiecewiseConstantBirthDeath on ((t0,t1),t2), origin given; epochs of equal length origin / m, or
+    (times='abs' | 'rel', m = 2) rate-shift times given as a parameter [t_0, t_1] (absolute, or fractions of the origin)"""
+    taxa = cm.taxa_json(3, BDSK_DATES if serial else None)
     tree = cm.time_tree_json(((0, 1), 2), 3)
     tree['taxa'] = taxa
-    m = {'id': 'm', 'type': 'PiecewiseLinearCoalescentGridModel', 'theta': {'id': 'theta', 'type': 'Parameter', 'tensor': [2.0, 3.0]},
-         'grid': [1.7], 'tree_model': tree}
-    return [m], {'theta': P([2.0, 3.0], 0.01, None), 'tree.heights': P([1.0, 2.5], 0.01, None)}, 'm', {'heights_order': True}
+    R, dl, s = [1.5, 1.1, 1.3][:m], [1.2, 0.9, 1.0][:m], [0.3, 0.45, 0.4][:m]
+    js = {'id': 'm', 'type': 'BDSKModel', 'tree_model': tree,
+          'R': {'id': 'R', 'type': 'Parameter', 'tensor': R}, 'delta': {'id': 'delta', 'type': 'Parameter', 'tensor': dl},
+          's': {'id': 's', 'type': 'Parameter', 'tensor': s}, 'origin': {'id': 'origin', 'type': 'Parameter', 'tensor': [4.0]},
+          'survival': survival}
+    params = {'R': P(R, 0.05, None), 'delta': P(dl, 0.05, None), 's': P(s, 0.02, 0.95), 'origin': P([4.0], None, None),
+              'tree.heights': P([1.0, 2.5], 0.5 if serial else 0.01, None)}
+    if rho:
+        js['rho'] = {'id': 'rho', 'type': 'Parameter', 'tensor': [0.2]}
+        params['rho'] = P([0.2], 0.01, 0.95)
+    if removal:
+        js['removal_probability'] = {'id': 'r', 'type': 'Parameter', 'tensor': [0.7][:m]}
+        params['r'] = P([0.7][:m], 0.02, 0.98)
+    if times:
+        tv = [0.0, 1.5] if times == 'abs' else [0.0, 0.4]
+        js['times'] = {'id': 'times', 'type': 'Parameter', 'tensor': tv}
+        js['relative_times'] = times == 'rel'
+        params['times'] = P(tv, -0.1, None)
+
+    def domain(d, V):
+        cs = [d.lt(V['tree.heights[1]'], V['origin[0]'])]
+        if times:
+            cs += [d.lt(d.const(0.2), V['times[1]']),
+                   d.lt(V['times[1]'], V['origin[0]'] if times == 'abs' else d.const(0.95))]
+        return cs
+
+    # bdsk.py compares tip times with epoch boundaries by `==`: an equality among the path conditions of a region is a tie
+    opts = {'heights_order': True, 'domain': domain, 'max_regions': 60, 'event_time_equalities': True}
+    if times:
+        opts['fixed'] = ('times[0]',)  # the process starts at time 0: not a free parameter
+    return [js], params, 'm', opts
 
 
-# the derivative through the eigh stub is not modelled (outside the claim): every C10 case whose substitution model is
-# diagonalised numerically (HKY, GTR) is left out, whatever C10 adds later
+def case_bdsk4(m=2, survival=True):
+    """BDSKModel on 4 heterochronous taxa, balanced topology ((t0,t1),(t2,t3)); internal heights [h(t0,t1), h(t2,t3), root]"""
+    specs, params, target, opts = case_bdsk(m, survival, True)
+    tree = cm.time_tree_json(((0, 1), (2, 3)), 4)
+    tree['taxa'] = cm.taxa_json(4, DATES4)
+    tree['internal_heights']['tensor'] = [1.0, 1.6, 2.5]
+    specs[0]['tree_model'] = tree
+    params['tree.heights'] = P([1.0, 1.6, 2.5], 0.01, None)
+
+    def domain(d, V):
+        h = [V[f'tree.heights[{i}]'] for i in range(3)]
+        return [d.lt(d.const(0.3), h[0]), d.lt(d.const(0.6), h[1]), d.lt(h[0], h[2]), d.lt(h[1], h[2]), d.lt(h[2], V['origin[0]'])]
+
+    return specs, params, target, {'domain': domain, 'max_regions': 150, 'event_time_equalities': True}
+
+
+def case_birthdeath(survival=True, serial=True):
+    """BirthDeathModel -> BirthDeath (constant rates), origin given"""
+    taxa = cm.taxa_json(3, BDSK_DATES if serial else None)
+    tree = cm.time_tree_json(((0, 1), 2), 3)
+    tree['taxa'] = taxa
+    js = {'id': 'm', 'type': 'BirthDeathModel', 'tree_model': tree,
+          'lambda': {'id': 'lambda', 'type': 'Parameter', 'tensor': [1.8]}, 'mu': {'id': 'mu', 'type': 'Parameter', 'tensor': [0.9]},
+          'psi': {'id': 'psi', 'type': 'Parameter', 'tensor': [0.4]}, 'rho': {'id': 'rho', 'type': 'Parameter', 'tensor': [0.2]},
+          'origin': {'id': 'origin', 'type': 'Parameter', 'tensor': [4.0]}, 'survival': survival}
+    params = {'lambda': P([1.8], 0.05, None), 'mu': P([0.9], 0.05, None), 'psi': P([0.4], 0.05, None), 'rho': P([0.2], 0.01, 0.95),
+              'origin': P([4.0], None, None), 'tree.heights': P([1.0, 2.5], 0.5 if serial else 0.01, None)}
+
+    def domain(d, V):
+        return [d.lt(V['tree.heights[1]'], V['origin[0]'])]
+
+    return [js], params, 'm', {'heights_order': True, 'domain': domain}
+
+
+# C10's cases are differentiated as they are (every parameter un-batched); cases another builder adds to C10 under the
+# prefixes below are batching scenarios of models that have their own gradient cases here
 CASES = {k: v for k, v in C10.CASES.items()
-         if not (k.startswith('likelihood:') and ('/HKY' in k or '/GTR' in k)) and k not in ('substitution:GTR.q', 'substitution:HKY.q')
-         and not k.startswith(('bdsk:', 'birthdeath:', 'extra:'))}
+         if not k.startswith(('bdsk:', 'birthdeath:', 'extra:', 'substitution:'))}
 CASES.update({
     'chain:node-height log-Jacobian': lambda: case_chain('jacobian'),
     'chain:constant coalescent on exp-transformed theta, ratio tree': lambda: case_chain('coalescent'),
@@ -109,47 +426,201 @@ CASES.update({
     'chain:joint = likelihood + coalescent + CTMC scale + Jacobian': lambda: case_chain('joint'),
     'gmrf:time-aware': lambda: case_gmrf_time(True),
     'gmrf:time-aware no rescale': lambda: case_gmrf_time(False),
-    'coalescent:piecewise-linear': case_piecewise_linear,
+    'coalescent:piecewise-linear': C10.case_plinear,
+    # ---- gap 1: gradients through the eigendecomposition
+    'eigen:chain likelihood HKY+Weibull, ratio tree, strict clock': lambda: case_chain_eigen('HKY', 'weibull'),
+    'eigen:chain likelihood HKY+Weibull, tip states': lambda: case_chain_eigen('HKY', 'weibull', tip_states=True),
+    'eigen:chain likelihood HKY+Invariant': lambda: case_chain_eigen('HKY', 'invariant'),
+    'eigen:chain likelihood GTR+Weibull': lambda: case_chain_eigen('GTR', 'weibull'),
+    'eigen:chain likelihood GTR+Invariant, tip states': lambda: case_chain_eigen('GTR', 'invariant', tip_states=True),
+    'eigen:chain likelihood HKY+Weibull (rescaling active)': lambda: case_chain_eigen('HKY', 'weibull', rescale=True),
+    'eigen:chain likelihood GTR+Invariant+mu, tip states (rescaling active)':
+        lambda: case_chain_eigen('GTR', 'invariant', tip_states=True, rescale=True, mu=True),
+    'eigen:likelihood GeneralSymmetric (3 states)': lambda: case_like_general('GeneralSymmetric'),
+    'eigen:likelihood GeneralNonSymmetric (3 states, matrix_exp)': lambda: case_like_general('GeneralNonSymmetric'),
+    'degenerate:likelihood HKY at kappa = 1 (repeated eigenvalue)': lambda: case_degenerate('HKY'),
+    'degenerate:likelihood GTR at equal exchangeabilities (repeated eigenvalue)': lambda: case_degenerate('GTR'),
+    'substitution:HKY.q': lambda: case_subst('HKY', 'q'),
+    'substitution:GTR.q': lambda: case_subst('GTR', 'q'),
+    'substitution:HKY.p_t': lambda: case_subst('HKY', 'p_t'),
+    'substitution:GTR.p_t': lambda: case_subst('GTR', 'p_t'),
+    'substitution:GeneralSymmetric.p_t': lambda: case_subst('GeneralSymmetric', 'p_t'),
+    'substitution:GeneralNonSymmetric.p_t (matrix_exp)': lambda: case_subst('GeneralNonSymmetric', 'p_t'),
+    # ---- gap 2: birth-death models
+    'bdsk:1 epoch, survival, serial tips': lambda: case_bdsk(1, True, True),
+    'bdsk:1 epoch, no survival, serial tips': lambda: case_bdsk(1, False, True),
+    'bdsk:1 epoch, survival, contemporaneous tips': lambda: case_bdsk(1, True, False),
+    'bdsk:2 epochs, survival, serial tips': lambda: case_bdsk(2, True, True),
+    'bdsk:2 epochs, no survival, serial tips': lambda: case_bdsk(2, False, True),
+    'bdsk:2 epochs, survival, contemporaneous tips': lambda: case_bdsk(2, True, False),
+    'bdsk:2 epochs, no survival, contemporaneous tips': lambda: case_bdsk(2, False, False),
+    'bdsk:1 epoch, no survival, contemporaneous tips': lambda: case_bdsk(1, False, False),
+    'bdsk:3 epochs, survival, serial tips': lambda: case_bdsk(3, True, True),
+    'bdsk:2 epochs, absolute shift times given, serial tips': lambda: case_bdsk(2, True, True, times='abs'),
+    'bdsk:2 epochs, relative shift times given, serial tips': lambda: case_bdsk(2, True, True, times='rel'),
+    'bdsk:1 epoch, removal probability, serial tips': lambda: case_bdsk(1, True, True, removal=True),
+    'bdsk:1 epoch, no rho parameter (rho = 0), serial tips': lambda: case_bdsk(1, True, True, rho=False),
+    'bdsk:2 epochs, survival, 4 heterochronous taxa': lambda: case_bdsk4(2, True),
+    'bdsk:1 epoch, no survival, 4 heterochronous taxa': lambda: case_bdsk4(1, False),
+    'birthdeath:survival, serial tips': lambda: case_birthdeath(True, True),
+    'birthdeath:no survival, serial tips': lambda: case_birthdeath(False, True),
+    'birthdeath:survival, contemporaneous tips': lambda: case_birthdeath(True, False),
+    'birthdeath:no survival, contemporaneous tips': lambda: case_birthdeath(False, False),
+    # ---- gap 3: remaining densities
+    'likelihood:unrooted/weibull+invariant+mu/JC69': case_site_invariant_mu,
+    'likelihood:unrooted/invariant+mu/JC69': lambda: C10.case_likelihood('unrooted', 'invariant', 'JC69', mu=True)[:3] + ({},),
+    'likelihood:strict/weibull+mu/JC69 tip states': lambda: C10.case_likelihood('strict', 'weibull', 'JC69', mu=True, tip_states=True)[:3]
+    + ({'heights_order': True},),
+    'gmrf:integrated (GMRFGammaIntegrated)': case_gmrf_integrated,
+    'gmrf:integrated time-aware': lambda: case_gmrf_time(True, integrated=True),
+    'gmrf:integrated time-aware no rescale': lambda: case_gmrf_time(False, integrated=True),
+    'gmrf:covariate (GMRFCovariate)': case_gmrf_covariate,
+    'gmrf:weights': lambda: case_gmrf_weights(False),
+    'gmrf:integrated weights': lambda: case_gmrf_weights(True),
+    'chain:time-aware GMRF on ratio tree': case_gmrf_chain,
+    'coalescent:constant integrated (ConstantCoalescentIntegrated)': lambda: case_coalescent_integrated(False),
+    'chain:constant integrated coalescent on ratio tree': lambda: case_coalescent_integrated(True),
+    'chain:skygrid on ratio tree': lambda: case_coalescent_chain('skygrid', 'ratio'),
+    'chain:skyride on ratio tree': lambda: case_coalescent_chain('skyride', 'ratio'),
+    'chain:exponential coalescent on ratio tree': lambda: case_coalescent_chain('exponential', 'ratio'),
+    'chain:piecewise-linear coalescent on ratio tree': lambda: case_coalescent_chain('piecewise-linear', 'ratio'),
+    'chain:constant coalescent on shift tree': lambda: case_coalescent_chain('constant', 'shift'),
+    'chain:skygrid on shift tree': lambda: case_coalescent_chain('skygrid', 'shift'),
+    'chain:skyride on shift tree': lambda: case_coalescent_chain('skyride', 'shift'),
+    'chain:exponential coalescent on shift tree': lambda: case_coalescent_chain('exponential', 'shift'),
+    'chain:piecewise-linear coalescent on shift tree': lambda: case_coalescent_chain('piecewise-linear', 'shift'),
+    'chain:likelihood JC69+Weibull on shift tree with strict clock': case_likelihood_shift,
+    # 4 heterochronous taxa, balanced topology
+    'chain4:node-height log-Jacobian, ratio tree': lambda: case_chain4('jacobian', 'ratio'),
+    'chain4:constant coalescent, ratio tree': lambda: case_chain4('constant', 'ratio'),
+    'chain4:constant coalescent, shift tree': lambda: case_chain4('constant', 'shift'),
+    'chain4:skyride, ratio tree': lambda: case_chain4('skyride', 'ratio'),
+    'chain4:skygrid, shift tree': lambda: case_chain4('skygrid', 'shift'),
+    'chain4:likelihood HKY+Weibull, ratio tree, strict clock': lambda: case_chain4('likelihood', 'ratio'),
+    'chain4:likelihood HKY+Weibull, shift tree, strict clock': lambda: case_chain4('likelihood', 'shift'),
+    # 4 heterochronous taxa, caterpillar topology (thorough tier)
+    'chain4c:node-height log-Jacobian, ratio tree, caterpillar': lambda: case_chain4('jacobian', 'ratio', CATERPILLAR4),
+    'chain4c:constant coalescent, ratio tree, caterpillar': lambda: case_chain4('constant', 'ratio', CATERPILLAR4),
+    'chain4c:skygrid, ratio tree, caterpillar': lambda: case_chain4('skygrid', 'ratio', CATERPILLAR4),
+    'chain4c:constant coalescent, shift tree, caterpillar': lambda: case_chain4('constant', 'shift', CATERPILLAR4),
+    'chain4c:likelihood HKY+Weibull, ratio tree, strict clock, caterpillar': lambda: case_chain4('likelihood', 'ratio', CATERPILLAR4),
 })
+
+
+def weights(n):
+    return [1.0 + k / 8.0 for k in range(n)]
+
+
+def evaluate_case(A, target, opts):
+    """the tensor whose (weighted) sum is differentiated; same code for SymTensors and plain tensors"""
+    obj = A[target]
+    ev = opts.get('evaluate')
+    if ev == 'q':
+        return obj.q()
+    if ev == 'p_t':
+        return obj.p_t(A['t'].tensor.unsqueeze(-1))
+    if opts.get('rescale'):
+        obj.rescale = True
+    return obj()
+
+
+def scalar_of(val, opts):
+    """plain tensors: the differentiated scalar"""
+    if opts.get('weighted'):
+        flat = val.reshape(-1)
+        return (flat * torch.tensor(weights(flat.numel()), dtype=flat.dtype)).sum()
+    return val.sum()
+
+
+_DERIV = re.compile(r'^d\d+~')
+
+
+def has_derivative_symbols(d, nodes):
+    return any(_DERIV.match(name) for name in d.ufs([n for n in nodes if n not in (0, 1)]))
+
+
+def structural_region_keys(d):
+    """The explorer identifies a region by the printed form of its path conditions (to_str with depth 50: a TREE expansion).
+    With 16-argument eigen symbols nested in the path conditions of the rescaled kernels that expansion takes tens of
+    seconds; on C12's DAGs the deep form is replaced by a structural digest of the node (same structure <=> same digest),
+    the shallow forms used for messages and samples are unchanged."""
+    import hashlib
+
+    orig = d.to_str
+    memo = {}
+
+    def digest(n):
+        for m in d.topo([n]):
+            if m not in memo:
+                a = d.args[m]
+                if d.ops[m] in ('const', 'var', 'bconst'):
+                    body_ = repr(a)
+                elif d.ops[m] == 'ipow':
+                    body_ = f'{memo[a[0]]}^{a[1]}'
+                elif d.ops[m] == 'uf':
+                    body_ = a[0] + ','.join(memo[x] for x in a[1:])
+                else:
+                    body_ = ','.join(memo[x] for x in a)
+                memo[m] = hashlib.sha1((d.ops[m] + ':' + body_).encode()).hexdigest()[:20]
+        return memo[n]
+
+    def to_str(n, depth=6):
+        return digest(n) if depth >= 50 else orig(n, depth)
+
+    d.to_str = to_str
 
 
 def make_body(cname):
     specs, params, target, opts = CASES[cname]()
-    names = []
-    for p, (vals, lo, hi) in params.items():
-        names += [(p, i) for i in range(len(vals))]
 
     def body(t, V, W):
+        t.uf_stubs = True  # differentiable eigh / inverse stubs (symtorch/ext_c12.py); C12's traces only
         d = t.dag
-        A = C10.build(specs)
+        structural_region_keys(d)
+        A = build(specs)
         for p, (vals, lo, hi) in params.items():
             A[p].tensor = cm.var_tensor(V, [f'{p}[{i}]' for i in range(len(vals))])
-        if opts.get('rescale'):
-            A[target].rescale = True
-        val = A[target]()
+        val = evaluate_case(A, target, opts)
         vi = val._ids.reshape(-1).tolist()
+        ws = weights(len(vi)) if opts.get('weighted') else None
         out = 0
-        for i in vi:
-            out = d.add(out, i)  # model().sum()
+        for k, i in enumerate(vi):
+            out = d.add(out, i if ws is None else d.mul(d.const(ws[k]), i))  # (weighted) model().sum()
         dep = set(d.variables([out]))
         goals = []
+        fixed = opts.get('fixed', ())
         for p, (vals, lo, hi) in params.items():
             ids = [V[f'{p}[{i}]'] for i in range(len(vals))]
             g_auto = d.grad(out, ids, honour_stops=True)
             g_true = d.grad(out, ids, honour_stops=False)
-            eqs = [d.eq(a, b) for a, b in zip(g_auto, g_true)]
+            eqs = [d.eq(a, b) for i, (a, b) in enumerate(zip(g_auto, g_true)) if f'{p}[{i}]' not in fixed]
             goal = d.and_(*eqs)
             goals.append(Goal(f'd value / d {p}: autograd gradient == derivative of the reported value', goal,
                               hyps=ground_axioms(d, [goal]), signature=f'{cname}:{p}:gradient-differs'))
+            goals[-1].param = p
             for i, ga in enumerate(g_auto):
-                if f'{p}[{i}]' in dep:
+                if f'{p}[{i}]' in dep and f'{p}[{i}]' not in fixed:
                     # must NOT be identically zero: the solver has to find a point with a non-zero gradient
-                    g = Goal(f'd value / d {p}[{i}] is not identically zero', d.not_(d.eq(ga, ga)) if False else d.TRUE,
-                             signature=f'{cname}:{p}:gradient-missing')
+                    g = Goal(f'd value / d {p}[{i}] is not identically zero', d.TRUE, signature=f'{cname}:{p}:gradient-missing')
                     g.nonzero_node = ga
+                    g.param = (p, i)
                     goals.append(g)
-        body.last = {'A': A, 'out': out, 'grads': {p: d.grad(out, [V[f'{p}[{i}]'] for i in range(len(params[p][0]))], True)
-                                                    for p in params}}
+        grads = {p: d.grad(out, [V[f'{p}[{i}]'] for i in range(len(params[p][0]))], True) for p in params}
+        pseudo = has_derivative_symbols(d, [g for gl in grads.values() for g in gl])
+        guard = []
+        if pseudo:
+            # vacuity guard of the eigen encoding: the derivative that a cut AT the eigendecomposition / matrix exponential would
+            # leave (partials of the eigh / inverse / matrix_exp symbols replaced by 0) must be distinguishable from the true one
+            def cut(dag, name, xs, k, n):
+                return 0 if name.startswith(('eigh', 'inv', 'expm')) else None
+
+            for p in params:
+                if p in ('kappa', 'rates', 'freqs'):
+                    ids = [V[f'{p}[{i}]'] for i in range(len(params[p][0]))]
+                    g_cut = d.grad(out, ids, honour_stops=False, uf_deriv=cut)
+                    g_true = d.grad(out, ids, honour_stops=False)
+                    guard.append((p, d.and_(*[d.eq(a, b) for a, b in zip(g_cut, g_true)])))
+        body.last = {'A': A, 'out': out, 'grads': grads, 'pseudo': pseudo, 'guard': guard, 'stubs': sorted(set(t.stubs_used))}
         return goals
 
     def domain(d, V):
@@ -163,117 +634,277 @@ def make_body(cname):
                     cs.append(d.lt(v, d.const(hi)))
         if opts.get('heights_order') and 'tree.heights' in params:
             cs.append(d.lt(V['tree.heights[0]'], V['tree.heights[1]']))
+        if opts.get('domain'):
+            cs += opts['domain'](d, V)
+        for n in opts.get('fixed', ()):
+            cs.append(d.eq(V[n], d.const(W[n])))
         return cs
 
     W = {f'{p}[{i}]': float(v) for p, (vals, lo, hi) in params.items() for i, v in enumerate(vals)}
+    W.update(opts.get('start', {}))
     return body, domain, W, (specs, params, target, opts)
 
 
 def real_gradients(cname, vals):
     """plain tensors + real torch.autograd on the real model"""
     specs, params, target, opts = CASES[cname]()
-    A = C10.build(specs)
+    A = build(specs)
     leaves = {}
     for p, (base, lo, hi) in params.items():
         x = torch.tensor([vals.get(f'{p}[{i}]', b) for i, b in enumerate(base)], dtype=torch.float64, requires_grad=True)
         leaves[p] = x
         A[p].tensor = x
-    if opts.get('rescale'):
-        A[target].rescale = True
-    out = A[target]().sum()
+    out = scalar_of(evaluate_case(A, target, opts), opts)
     out.backward()
-    return float(out), {p: (x.grad.clone() if x.grad is not None else None) for p, x in leaves.items()}, A
+    return float(out.detach()), {p: (x.grad.clone() if x.grad is not None else None) for p, x in leaves.items()}, A
 
 
-def finite_difference(cname, vals, p, i, h=1e-6):
+def finite_difference(cname, vals, p, i, h=1e-6, sides=False):
     specs, params, target, opts = CASES[cname]()
 
     def f(delta):
-        A = C10.build(specs)
+        A = build(specs)
         for q, (base, lo, hi) in params.items():
             x = [vals.get(f'{q}[{k}]', b) for k, b in enumerate(base)]
             if q == p:
                 x[i] += delta
             A[q].tensor = torch.tensor(x, dtype=torch.float64)
-        if opts.get('rescale'):
-            A[target].rescale = True
         with torch.no_grad():
-            return float(A[target]().sum())
+            return float(scalar_of(evaluate_case(A, target, opts), opts))
 
+    if sides:
+        f0, fp, fm = f(0.0), f(h), f(-h)
+        return (fp - fm) / (2 * h), (fp - f0) / h, (f0 - fm) / h
     return (f(h) - f(-h)) / (2 * h)
 
 
-def replay(cname, vals):
+def replay(cname, vals, first=None):
+    """real torch.autograd against central finite differences on the real model (plain tensors); `first`: parameter examined first"""
     specs, params, target, opts = CASES[cname]()
     try:
         out, grads, _ = real_gradients(cname, vals)
     except Exception as e:
         return True, f'backward on the real model raised {type(e).__name__}: {e}'
-    for p, (base, lo, hi) in params.items():
+    for p in sorted(params, key=lambda q: q != first):
+        base = params[p][0]
         for i in range(len(base)):
+            if f'{p}[{i}]' in opts.get('fixed', ()):
+                continue
             fd = finite_difference(cname, vals, p, i)
             g = None if grads[p] is None else float(grads[p][i])
             if g is None:
                 if abs(fd) > 1e-6:
                     return True, f'{p}[{i}] receives no gradient but the numerical derivative is {fd}'
                 continue
-            if abs(g - fd) > 1e-4 * max(1.0, abs(fd)):
+            if not (abs(g - fd) <= 1e-4 * max(1.0, abs(fd))):
+                # a point ON a boundary between path regions (a tie between event times: outside the claim) has a kink: the
+                # central difference straddles it while autograd returns the derivative of one side
+                _, fwd, bwd = finite_difference(cname, vals, p, i, sides=True)
+                if abs(fwd - bwd) > 1e-4 * max(1.0, abs(fd)) and min(abs(g - fwd), abs(g - bwd)) <= 1e-3 * max(1.0, abs(fd)):
+                    continue
                 return True, f'd/d{p}[{i}]: autograd {g} vs numerical derivative {fd}'
     return False, 'agree with finite differences'
 
 
 def run_task(task, tr):
     from torchtree.core import model as coremodel
+    from symtorch.explore import prove
 
-    cname = task
-    label = cname
+    cname, alt = (task, False) if isinstance(task, str) else (task[0], True)
+    label = cname + (' [second starting point]' if alt else '')
     body, domain, W, (specs, params, target, opts) = make_body(cname)
+    if alt:
+        # thorough tier: the same case explored from a second generic point (every input x 1.3; fixed elements kept)
+        for n in W:
+            if n not in opts.get('fixed', ()):
+                W[n] = W[n] * 1.3
     tr.fn(coremodel.CallableModel.__call__)
-    tr.bounds['sizes'] = '3 taxa (4 for the tree prior), 2 rate categories, field length 2-3; every continuous parameter of each density'
+    describe(cname, tr)
 
     nonzero_pending = []
+    nonzero_open = []
+    explicit = []
+    witness_failures = []
+    concrete = []
+    ties = []
 
     def body2(t, V, Wt):
         goals = body(t, V, Wt)
         d = t.dag
-        real = []
-        for g in goals:
-            if hasattr(g, 'nonzero_node'):
-                real.append(g)
-        # engine autograd model vs real torch.autograd at this witness
-        try:
-            out, grads, _ = real_gradients(cname, Wt)
-            for p, gl in body.last['grads'].items():
-                for i, gi in enumerate(gl):
-                    ev = d.vals[gi]
-                    rv = 0.0 if grads[p] is None else float(grads[p][i])
-                    if abs(ev - rv) > 1e-6 * max(1.0, abs(rv)):
-                        tr.inconc(f'{label}: engine gradient model {ev} != real torch.autograd {rv} for {p}[{i}] at the witness')
-            tr.notes.append(f'{label}: engine autograd model == torch.autograd at witness')
-        except Exception as e:
-            tr.violation(f'{cname}:backward-raises', f'{label}: backward on the real model raised {type(e).__name__}: {e}',
-                         {'case': cname, 'values': Wt})
+        for s_ in body.last['stubs']:
+            tr.stubs.add(s_)
+        if body.last['pseudo']:
+            # derivative symbols of the eigh / inverse / matrix_exp stubs carry pseudo-witness values: the engine gradient has no
+            # numerical meaning at the witness.  Concrete by-product instead: real torch.autograd == central finite differences
+            # on the real model at this witness (also exposes a backward() that raises)
+            bad, detail = replay(cname, Wt)
+            if bad:
+                sig = f'{cname}:backward-raises' if detail.startswith('backward on the real model raised') else \
+                    opts.get('witness_signature', f'{cname}:gradient-differs-at-witness')
+                witness_failures.append((sig, f'{label}: on the real model at the region witness {Wt}: {detail}' + opts.get('witness_note', ''),
+                                         {'case': cname, 'values': dict(Wt)}))
+            else:
+                tr.notes.append(f'{label}: real torch.autograd == central finite differences at the witness (replaces the engine-vs-autograd '
+                                f'cross-check: derivative symbols of the eigen stubs have pseudo-witness values)')
+        else:
+            # engine autograd model vs real torch.autograd at this witness
+            try:
+                out, grads, _ = real_gradients(cname, Wt)
+                for p, gl in body.last['grads'].items():
+                    for i, gi in enumerate(gl):
+                        ev = d.vals[gi]
+                        rv = 0.0 if grads[p] is None else float(grads[p][i])
+                        if not (abs(ev - rv) <= 1e-6 * max(1.0, abs(rv))):
+                            tr.inconc(f'{label}: engine gradient model {ev} != real torch.autograd {rv} for {p}[{i}] at the witness')
+                tr.notes.append(f'{label}: engine autograd model == torch.autograd at witness')
+            except Exception as e:
+                tr.violation(f'{cname}:backward-raises', f'{label}: backward on the real model raised {type(e).__name__}: {e}',
+                             {'case': cname, 'values': Wt})
         # non-zero obligations are existential: decided separately (sat expected)
-        from symtorch.explore import prove
-
         dom = domain(d, V)
+        hyps = dom + list(t.pcs)
+        pseudo = body.last['pseudo']
+        # `sat` questions (existential obligations, separating points) are settled AT the region witness first: the model is
+        # exhibited - inputs and uninterpreted applications (exp, log, sqrt, pow, eigen / derivative symbols) take their witness
+        # values, the hypotheses must hold and the equality must fail in exact rational arithmetic (C10.model_separates); a
+        # checked model is a `sat` certificate, and unlike a solver model over uninterpreted exp / log it is never spurious.
+        # Only when the witness does not separate is the solver asked: with every input pinned at the witness (not for the
+        # eigen cases, where z3 does not answer), then unpinned
+        pins = [d.eq(V[n], d.const(float(Wt[n]))) for n in sorted(V)]
+
+        def explicit_model(eq_node, what):
+            # (ground axiom instances - sqrt(x)^2 = x ... - hold over the reals but not for the float witness of sqrt in exact
+            # arithmetic; they are not part of the exhibited model, whose only use for a universal goal is to trigger the
+            # replay on the real model)
+            if C10.model_separates(d, hyps, eq_node):
+                tr.obligation(f'explicit model:{cname}:{what}', nontrivial=True)
+                explicit.append(what)
+                return True
+            return False
+
+        def pinned_solver(eq_node, extra, what):
+            if pseudo:
+                return False
+            st, r, _ = prove(d, hyps + extra + pins, eq_node, timeout=PIN_TIMEOUT, solvers=('z3',), tr=tr, label=what + ' (witness point)')
+            return st == 'refuted'
+
+        for p_, node in body.last['guard']:
+            if node == d.TRUE:
+                tr.inconc(f'{label}: vacuity guard: no gradient w.r.t. {p_} flows through the eigendecomposition symbols')
+            elif not explicit_model(node, f'vacuity guard: a cut at the eigendecomposition changes d value / d {p_}'):
+                st, r, _ = prove(d, hyps, node, timeout=20, tr=tr, label=f'vacuity guard {p_}', parallel=True)
+                if st != 'refuted':
+                    tr.inconc(f'{label}: vacuity guard for {p_} not settled ({st}): a cut at the eigendecomposition could not be told apart')
+
+        points = {}
+
+        def region_points():
+            """the region witness, and a second point of the SAME region (domain and every path condition evaluated there) in
+            which as many inputs as possible take their generic initial values: a witness produced by the solver likes
+            coincidences (equal rates in both epochs make the derivative w.r.t. the shift time vanish)"""
+            if 'list' not in points:
+                pts = [dict(Wt)]
+                try:
+                    cur_ = dict(Wt)
+                    for n in sorted(V):
+                        if cur_[n] != W[n]:
+                            trial = dict(cur_, **{n: W[n]})
+                            ev = d.evaluate(hyps, trial)
+                            if all(ev[c] for c in hyps):
+                                cur_ = trial
+                    if cur_ != Wt:
+                        pts.append(cur_)
+                    # solver witnesses also like boundaries of the closed regions (ties, where finite differences straddle a
+                    # kink): a few deterministic small displacements of that point that stay inside the region
+                    for k in range(1, 5):
+                        trial = {n: v * (1 + 0.013 * k * ((j * 7 + k * 3) % 5 - 2)) + 0.0007 * k * ((j * 5 + k) % 3 - 1)
+                                 for j, (n, v) in enumerate(sorted(cur_.items())) }
+                        for n in opts.get('fixed', ()):
+                            trial[n] = W[n]
+                        ev = d.evaluate(hyps, trial)
+                        if all(ev[c] for c in hyps):
+                            pts.append(trial)
+                except Exception:  # noqa  (path conditions over symbols without an evaluator: no second point)
+                    pass
+                points['list'] = [(pt, {}) for pt in pts]
+            return points['list']
+
+        def concrete_nonzero(p, i):
+            """the REAL model at a point of this region: torch.autograd gradient non-zero and equal to the central finite
+            difference - a concrete point with a non-zero gradient (existence shown on the real code itself)"""
+            for pt, cache in region_points():
+                if 'grads' not in cache:
+                    try:
+                        cache['grads'] = real_gradients(cname, pt)[1]
+                    except Exception:  # noqa  (a raising backward is reported by the witness cross-check above)
+                        cache['grads'] = None
+                grads = cache['grads']
+                if grads is None or grads[p] is None:
+                    continue
+                ga = float(grads[p][i])
+                if abs(ga) <= 1e-9:
+                    continue
+                fd = finite_difference(cname, pt, p, i)
+                if abs(ga - fd) <= 1e-4 * max(1.0, abs(fd)):
+                    return True
+            return False
+
+        # a region with an EQUALITY between event times among its path conditions (bdsk.py compares tip times with epoch
+        # boundaries by ==) is a set of ties: outside the claim; finite differences straddle the kink there, and the equality
+        # does not hold in exact arithmetic for the float witness.  The two gradients are still compared on it; a non-zero
+        # gradient is only required to be not the constant 0
+        tie = bool(opts.get('event_time_equalities')) and any(d.ops[c] == 'eq' for c in t.pcs)
+        if tie:
+            ties.append(dict(Wt))
         keep = []
         for g in goals:
+            if hasattr(g, 'nonzero_node') and tie and g.nonzero_node != 0:
+                continue
             if hasattr(g, 'nonzero_node'):
-                st, r, _ = prove(d, dom + list(t.pcs), d.eq(g.nonzero_node, 0), timeout=(6 if opts.get('rescale') else 20), tr=tr, label=g.label, parallel=True)
+                if d.ops[g.nonzero_node] == 'const':
+                    st = 'proved' if g.nonzero_node == 0 else 'refuted'
+                elif explicit_model(d.eq(g.nonzero_node, 0), g.label):
+                    st = 'refuted'
+                elif concrete_nonzero(*g.param):
+                    # the witness is a coincidence (equal rates in both epochs: no dependence on the shift time) or a boundary point
+                    st = 'refuted'
+                    concrete.append(g.label)
+                elif pinned_solver(d.eq(g.nonzero_node, 0), [], g.label):
+                    st = 'refuted'
+                else:
+                    st, r, _ = prove(d, hyps, d.eq(g.nonzero_node, 0), timeout=(6 if opts.get('rescale') else 20), tr=tr, label=g.label, parallel=True)
                 if st == 'proved':
                     nonzero_pending.append((g, dict(Wt)))
-            else:
-                keep.append(g)
+                elif st != 'refuted':
+                    nonzero_open.append((g, dict(Wt)))
+                continue
+            if g.node not in (d.TRUE, d.FALSE) and (explicit_model(g.node, g.label) or pinned_solver(g.node, g.hyps, g.label)):
+                # the two gradients are different expressions and the witness separates them: confirm on the real model;
+                # whatever is not settled here goes to the full query of the explorer
+                bad, detail = replay(cname, Wt, first=g.param)
+                if bad:
+                    tr.violation(g.signature, f'{label}: {g.label} fails at {Wt}: {detail}', {'case': cname, 'values': dict(Wt)})
+                    continue
+            keep.append(g)
         return keep
 
-    ex = Explorer(W, domain, body2, tr, max_regions=(2 if opts.get('rescale') else 60), timeout=(15.0 if opts.get('rescale') else 40.0),
-                  closure_timeout=(8.0 if opts.get('rescale') else 30.0), label=label, check_defined=False,
-                  deadline=time.time() + 600, require_closure=not opts.get('rescale'))
+    rescale = bool(opts.get('rescale'))
+    no_closure = rescale or bool(opts.get('no_closure'))
+    ex = Explorer(W, domain, body2, tr, max_regions=(2 if rescale else opts.get('max_regions', 60)), timeout=(15.0 if rescale else 40.0),
+                  closure_timeout=(8.0 if rescale else 30.0), label=label, check_defined=False,
+                  deadline=time.time() + 600, require_closure=not no_closure)
     out = ex.run()
     for s in out.region_samples[:1]:
         s['case'] = label
         tr.sample(s)
+    if ties:
+        tr.notes.append(f'{label}: {len(ties)} of the {out.regions} regions are tie regions (an equality between event times among the path '
+                        f'conditions): the two gradients are compared there as well; of the non-zero obligations only "not the constant 0"')
+    if concrete:
+        tr.notes.append(f'{label}: {len(concrete)} existential obligations settled concretely: on the real model at a region witness the '
+                        f'torch.autograd gradient is non-zero and equals the central finite difference')
+    if explicit:
+        tr.notes.append(f'{label}: {len(explicit)} existential obligations settled by an explicit model at a region witness (exact rational evaluation)')
     for g, wit in nonzero_pending:
         # identically zero on a whole region: confirm on the real model with finite differences
         ok, detail = replay(cname, wit)
@@ -282,26 +913,158 @@ def run_task(task, tr):
                          {'case': cname, 'values': wit})
         else:
             tr.notes.append(f'{label}: {g.label}: zero on one region, and the numerical derivative is zero there as well')
+    done = set()
+    for g, wit in nonzero_open:
+        # the solver neither found a point with a non-zero gradient nor proved that there is none (timeout under load).  The
+        # witness itself is such a point when the numerical derivative of the real model is non-zero there and the real
+        # autograd gradient agrees with it (concrete by-product; otherwise undecided)
+        if g.param in done:
+            continue
+        p, i = g.param
+        try:
+            _, grads, _ = real_gradients(cname, wit)
+            fd = finite_difference(cname, wit, p, i)
+            ga = None if grads[p] is None else float(grads[p][i])
+        except Exception:  # noqa
+            fd, ga = 0.0, None
+        if ga is not None and abs(fd) > 1e-9 and abs(ga - fd) <= 1e-4 * max(1.0, abs(fd)):
+            done.add(g.param)
+            tr.notes.append(f'{label}: {g.label}: solver undecided; the region witness is a point with non-zero gradient (autograd {ga}, numerical {fd})')
+        elif ga is None and abs(fd) > 1e-6:
+            tr.violation(g.signature, f'{label}: {g.label}: {p}[{i}] receives no gradient at {wit} but the numerical derivative is {fd}',
+                         {'case': cname, 'values': wit})
+        else:
+            tr.inconc(f'{label}: {g.label}: undecided (solver unknown; autograd {ga}, numerical derivative {fd} at the witness)')
     triage(out, lambda vals: replay(cname, vals), tr, label, {'case': cname})
+    if witness_failures and not tr.violations:
+        # autograd != finite differences on the real model at a witness, and no symbolic obligation accounts for it
+        tr.violation(*witness_failures[0])
+
+
+def describe(cname, tr):
+    """bounds / functions / stubs of one case, for the evidence"""
+    tr.bounds['sizes'] = ('3 taxa, topology ((t0,t1),t2) (4 for the tree prior; 4 heterochronous taxa, balanced topology, for the "chain4:" and '
+                          '"4 heterochronous taxa" cases; thorough tier: caterpillar topology for the "chain4c:" cases), 1-3 rate categories (up to 5 in C10\'s HKY cases, thorough tier), field length 2-3, '
+                          '4-state nucleotide models and 3-state general models; every continuous parameter of each density is a '
+                          'differentiation leaf (un-batched); thorough tier: every case explored a second time from another starting point')
+    tr.bounds['existential obligations'] = (
+        '"not identically zero" is settled per path region, in this order: (1) an explicit model at the region witness - inputs and '
+        'uninterpreted applications take their witness values, path conditions hold and the gradient is non-zero in exact rational '
+        'arithmetic; (2) the real model at the witness or at a nearby point of the same region: torch.autograd gradient non-zero and equal to '
+        'the central finite difference; (3) the solver with all inputs pinned at the witness; (4) the solver unpinned - `unsat` there '
+        '(identically zero on the region) is confirmed with finite differences on the real model before it is reported; undecided -> '
+        'inconclusive.  On tie regions (an == between event times among the path conditions) only "not the constant 0" is required (BDSK cases)')
+    from torchtree.evolution import tree_likelihood as tl
+    from torchtree.evolution.substitution_model.abstract import NonSymmetricSubstitutionModel, SymmetricSubstitutionModel
+
+    if cname.startswith(('eigen:', 'substitution:', 'degenerate:')) or (cname.startswith('likelihood:') and ('/HKY' in cname or '/GTR' in cname)):
+        from torchtree.evolution.substitution_model import general, nucleotide
+
+        tr.fn(SymmetricSubstitutionModel.p_t, NonSymmetricSubstitutionModel.p_t, nucleotide.HKY.q, nucleotide.GTR.q,
+              general.GeneralSymmetricSubstitutionModel.q, general.GeneralNonSymmetricSubstitutionModel.q)
+        tr.bounds['eigendecomposition'] = (
+            'HKY / GTR / GeneralSymmetric p_t: eigh(S) and inverse(V) are uninterpreted functions of all entries of the symbolic input '
+            '(inverse of the eigenvector matrix = its transpose); GeneralNonSymmetric p_t: matrix_exp likewise.  Their derivatives are free '
+            'derivative symbols, so the claim is: NO cut of the autograd history (detach / no_grad / .item() / tensor rebuild / fresh '
+            'tensor) on any path kappa, rates, frequencies, branch lengths, clock rate, site-model parameters -> q -> normalisation -> '
+            'symmetrisation -> eigh -> exp(e t) -> p_t -> pruning -> log-likelihood, for all parameter values of the domain.  '
+            'NOT claimed: that torch.linalg.eigh / matrix_exp backward formulas are right (checked numerically at each witness only).  '
+            'Points at which Q has a repeated eigenvalue (HKY at kappa = 1, GTR with equal exchangeabilities) are not covered by the '
+            'symbolic claim - the derivative symbols have no meaning there; two such interior points are examined concretely by the '
+            '"degenerate:" cases (torch.autograd vs finite differences on the real model, signature ' + SIG_DEGENERATE + ')')
+        tr.assumptions.add('frequencies are independent positive leaves (not constrained to the simplex): the derivative is taken '
+                           'entry by entry, as autograd does')
+    if cname.startswith(('likelihood:', 'eigen:', 'degenerate:', 'chain:likelihood', 'chain:joint', 'chain4:likelihood', 'chain4c:likelihood')):
+        tr.fn(tl.TreeLikelihoodModel._call, tl.calculate_treelikelihood_discrete, tl.calculate_treelikelihood_tip_states_discrete)
+    if 'rescal' in cname:
+        tr.fn(tl.calculate_treelikelihood_discrete_rescaled, tl.calculate_treelikelihood_tip_states_discrete_rescaled)
+        tr.bounds['rescaled kernels'] = ('decided on the path regions explored (<= 2; the per-site argmax of every internal node is a path '
+                                         'condition); no coverage certificate over the other argmax patterns')
+    if cname.startswith('bdsk:'):
+        from torchtree.evolution.bdsk import BDSKModel, PiecewiseConstantBirthDeath as PB, epidemiology_to_birth_death
+
+        tr.fn(BDSKModel._call, epidemiology_to_birth_death, PB.log_prob, PB.log_p, PB.log_q, PB.p0)
+        tr.bounds['bdsk'] = ('BDSKModel (R, delta, s, rho, origin given) with 1, 2 and 3 epochs of equal length origin / m, or 2 epochs with the '
+                             'shift time given as a parameter (absolute or relative to the origin; times[0] = 0 is held fixed); with / without '
+                             'survival conditioning; without the rho parameter; with removal probability (1 epoch: several epochs raise, C09); '
+                             'tips at heights 0.5 / 0 / 0.2 (serial) or all at 0, and 4 heterochronous taxa; gradient w.r.t. R, delta, s '
+                             '(=> lambda, mu, psi), rho, r, origin, the shift time and every internal node height; the position of every node / '
+                             'tip relative to the epoch boundaries is a path condition: all regions enumerated, closure certified')
+    if cname.startswith('birthdeath:'):
+        from torchtree.evolution.birth_death import BirthDeath as BD, BirthDeathModel
+
+        tr.fn(BirthDeathModel._call, BD.log_prob, BD.log_p, BD.log_q)
+        tr.bounds['birthdeath'] = ('BirthDeathModel (constant rates): gradient w.r.t. lambda, mu, psi, rho, origin and both internal node heights; '
+                                   'with / without survival conditioning; serial or contemporaneous tips')
+    if cname.startswith('gmrf:') or 'GMRF' in cname:
+        from torchtree.distributions.gmrf import GMRF, GMRFCovariate
+        from torchtree.distributions.gmrf_integrated import GMRFGammaIntegrated
+
+        tr.fn(GMRF._call, GMRFCovariate._call, GMRF.precision_matrix, GMRFGammaIntegrated._call)
+    if cname.startswith('chain'):
+        from torchtree.evolution.tree_height_transform import DifferenceNodeHeightTransform, GeneralNodeHeightTransform
+
+        tr.fn(GeneralNodeHeightTransform._call, DifferenceNodeHeightTransform._call)
+    if 'coalescent' in cname or 'sky' in cname or 'piecewise' in cname:
+        from torchtree.evolution import coalescent as co
+
+        tr.fn(co.ConstantCoalescent.log_prob, co.ConstantCoalescentIntegrated.log_prob, co.ExponentialCoalescent.log_prob,
+              co.PiecewiseConstantCoalescent.log_prob, co.PiecewiseConstantCoalescentGrid.log_prob, co.PiecewiseLinearCoalescentGrid.log_prob)
+
+
+# quick tier: everything except the cases below.  C10's HKY / GTR likelihood cases differ in the number of rate categories and in
+# sample shapes that C12 does not use: quick keeps one per kernel / site model / clock, the thorough tier runs all of them
+QUICK_EIGEN_C10 = {
+    'likelihood:unrooted/weibull/HKY', 'likelihood:strict/constant/HKY', 'likelihood:unrooted/invariant/HKY',
+    'likelihood:unrooted/constant+mu/HKY', 'likelihood:unrooted/constant/GTR', 'likelihood:unrooted/weibull/HKY/tip-states',
+    'likelihood:unrooted/weibull/HKY/rescaled', 'likelihood:unrooted/weibull/HKY/tip-states/rescaled', 'likelihood:simple/weibull3/HKY',
+}
+THOROUGH_ONLY = {
+    'chain4:likelihood HKY+Weibull, shift tree, strict clock',
+}
 
 
 def tasks_for(tier):
     names = list(CASES)
     if tier == 'quick':
-        skip = {'tree_prior', 'likelihood:simple/invariant/JC69', 'coalescent:skyride', 'distribution:gamma'}
-        names = [n for n in names if n not in skip]
+        names = [n for n in names if n not in THOROUGH_ONLY and not n.startswith('chain4c:')
+                 and not (n.startswith('likelihood:') and ('/HKY' in n or '/GTR' in n) and n not in QUICK_EIGEN_C10)]
+    # heavy cases first: better packing over the worker pool
+    def weight(n):
+        if 'rescal' in n:
+            return 0
+        if n.startswith(('chain4:likelihood', 'bdsk:2 epochs, survival, 4', 'bdsk:3')):
+            return 1
+        if n.startswith(('eigen:', 'likelihood:')):
+            return 2
+        return 3
+
+    names.sort(key=weight)
+    if tier == 'thorough':
+        # every case a second time, explored from another generic starting point
+        names = names + [(n, 'second starting point') for n in names]
     return names
 
 
 def body(chk):
     chk.explanation = ('the real densities are executed symbolically; the gradient autograd delivers (reverse differentiation '
                        'honouring detach / no_grad / tensor rebuilds) is compared by the solver with the true derivative of the '
-                       'reported value for all parameter values on every path region, and each influencing parameter must admit '
-                       'a point with non-zero gradient; the autograd model is cross-checked against torch.autograd at every witness')
-    chk.total.assumptions |= {'torch\'s own derivative formulas are trusted (the engine differentiates exp/log/pow/lgamma by rule)',
+                       'reported value for all parameter values on every path region (two syntactically identical gradients need no '
+                       'query; different ones are first separated at the region witness by an explicit exact model, confirmed on the real '
+                       'model, else sent to the solver), and each influencing parameter must admit a point with non-zero gradient in every '
+                       'region (explicit model / concrete point on the real model / solver, see bounds); the autograd model is cross-checked '
+                       'against torch.autograd at every witness. '
+                       'Eigendecompositions / matrix exponentials are uninterpreted functions of their input entries whose derivatives '
+                       'are free symbols (a cut of the autograd history on the way through them separates the two gradients); for these '
+                       'cases the witness cross-check is real torch.autograd == central finite differences on the real model')
+    chk.total.assumptions |= {'torch\'s own derivative formulas are trusted (the engine differentiates exp/log/pow/lgamma by rule; eigh / inverse / '
+                              'matrix_exp derivatives are free symbols, compared numerically with finite differences at each witness only)',
                               'ties between event times (region boundaries) are outside the claim',
-                              'the derivative through eigendecompositions is not modelled: likelihood gradients are checked with JC69 (closed form); '
-                              'BDSK gradients are outside this check'}
+                              'an in-place modification of a tensor that autograd saved for backward is not modelled symbolically; it is '
+                              'caught only through backward() raising on the real model at a region witness',
+                              'outside: origin omitted / origin as root edge and removal probability with several epochs of the BDSK model, '
+                              'codon (MG94) and amino-acid models, soft / piecewise-exponential grid coalescents, '
+                              'batched parameters (C10), 5 and more taxa, topologies other than the ones named in the bounds'}
     pmap(run_task, tasks_for(chk.tier), chk.total)
 
 
@@ -309,8 +1072,10 @@ if __name__ == '__main__':
     if '--replay' in sys.argv:
         import json
 
+        torch.set_default_dtype(torch.float64)  # as main_for does for the check itself (torchtree's command line runs in float64)
         r = json.load(open(sys.argv[sys.argv.index('--replay') + 1]))
         rp = r['replay']
+        print('replay:', r.get('what', '')[:300])
         ok, detail = replay(rp['case'], rp.get('values', {}))
         print(('REPRODUCED ' if ok else 'NOT REPRODUCED ') + detail)
         sys.exit(1 if ok else 0)
